@@ -7,7 +7,7 @@ PROP = 'C12'
 MODULE = 'Props.C12'
 THEOREMS = ['C12_snapshot_pure', 'C12_snapshot_is_get_stats', 'C12_hits_never_decrease',
             'C12_times_nonneg_and_monotone', 'C12_reregister_keeps_data', 'C12_wellformed', 'C12_report_hits_monotone',
-            'C12_label_stays_reported', 'C12_snapshot_entry_is_label_hits', 'C12_model_is_generated_core']
+            'C12_label_stays_reported', 'C12_snapshot_entry_is_label_hits', 'C12_model_is_generated_core', 'C12_reading_methods_are_snapshots']
 LEVEL = 'proof'
 FEATURES = [{'rereg'}, {'rereg', 'gen'}, {'rereg', 'rec'}, {'gen'}, set(), {'rereg', 'twins'}]
 # every reading method, also from inside running code; long lines; plain enable()/disable() windows
